@@ -32,6 +32,7 @@ type config struct {
 	RestartEvery int    `json:"restart_every"`
 	Hex          bool   `json:"hex"`
 	MaxFailures  int    `json:"max_failures"`
+	SettleMS     int    `json:"settle_ms"` // wait this long after a batch before the probes (retransmission timeouts)
 	Raw          []struct {
 		Nic   int      `json:"nic"`
 		Proto int      `json:"proto"`
@@ -455,6 +456,9 @@ func (r *runner) try(items []item) *failure {
 			return f
 		}
 	}
+	if r.cfg.SettleMS > 0 {
+		time.Sleep(time.Duration(r.cfg.SettleMS) * time.Millisecond)
+	}
 	if _, f := p.probes(); f != nil {
 		return f
 	}
@@ -755,6 +759,9 @@ func runParent(cfgPath, outPath string) {
 		}
 		var pres M
 		if f == nil {
+			if cfg.SettleMS > 0 {
+				time.Sleep(time.Duration(cfg.SettleMS) * time.Millisecond)
+			}
 			pres, f = p.probes()
 			if f == nil {
 				logLate()
